@@ -381,6 +381,9 @@ def run_case(case):
         Pd = E.problem(mjm, m, d, w, r1)
         if Pd["cone_bad"] or (Pd["n"] and np.any((Pd["D"] >= 1e12) & ~Pd["inert"])):
           continue
+        if not (E.hessian_condition(Pd) < 1e8):
+          rec.count("dense_vs_sparse_qacc_not_judged(hessian condition > 1e8)")
+          continue
         q2 = np.asarray(mw.npy(d2.qacc)[w], dtype=np.float64)[: mjm.nv]
         if not np.all(np.isfinite(q2)) or not np.all(np.isfinite(Pd["qacc"])):
           rec.viol("dense_vs_sparse:qacc:nonfinite", f"qacc not finite {ctx}")
